@@ -29,6 +29,7 @@ type Monitors struct {
 	completedAt map[string]int64
 	// schedule deletions acknowledged: schedule id -> tick of the ack
 	deletedAck map[string]int64
+	passedOver map[string]int // schedule id -> consecutive full firing reads that preferred newer occurrences
 	// fired occurrences: "sid@occ" -> count
 	fired map[string]int
 	// registrations acknowledged as pending (C05 ledger), checked at return
@@ -47,7 +48,7 @@ type Monitors struct {
 
 func NewMonitors(s *Sim) *Monitors {
 	m := &Monitors{s: s, routerFailed: map[string]bool{}, claimed: map[string]string{}, sends: map[string][]*SentMsg{},
-		completedAt: map[string]int64{}, deletedAck: map[string]int64{}, fired: map[string]int{}, hits: map[string]int{}, regions: map[string]bool{}, guar: map[string]int64{}, selected: map[string]int{}, opRows: map[string]int64{}, initSince: map[string]int{}}
+		completedAt: map[string]int64{}, deletedAck: map[string]int64{}, passedOver: map[string]int{}, fired: map[string]int{}, hits: map[string]int{}, regions: map[string]bool{}, guar: map[string]int64{}, selected: map[string]int{}, opRows: map[string]int64{}, initSince: map[string]int{}}
 	found := false
 	for _, src := range s.cfg.Sources {
 		if src.Name == "default" {
@@ -816,6 +817,39 @@ func (m *Monitors) checkSchedules(prev *vh.Snapshot, bi *BatchInfo, next *vh.Sna
 			m.deletedAck[c.cmd.DeleteSchedule.Id] = t
 		case t_aio.CreateSchedule:
 			delete(m.deletedAck, c.cmd.CreateSchedule.Id)
+		}
+	}
+	// bounded fairness of the firing cycle's selection ("none skipped ... every schedule batch size"): a due
+	// schedule must not be passed over again and again by full reads that only return newer occurrences.
+	// Any starvation-free order serves it within one round of the schedules; the bound is two rounds.
+	for _, c := range cmds {
+		if c.cmd.Kind != t_aio.ReadSchedules || c.res == nil || c.res.ReadSchedules == nil {
+			continue
+		}
+		recs := c.res.ReadSchedules.Records
+		returned := map[string]bool{}
+		minNext := int64(0)
+		for i, r := range recs {
+			returned[r.Id] = true
+			if i == 0 || r.NextRunTime < minNext {
+				minNext = r.NextRunTime
+			}
+		}
+		for id, q := range prev.S {
+			q1 := next.S[id]
+			if returned[id] || q1 == nil || q1.SortId != q.SortId || q1.Next != q.Next || q.Next > c.cmd.ReadSchedules.NextRunTime {
+				delete(m.passedOver, id)
+				continue
+			}
+			if len(recs) < c.cmd.ReadSchedules.Limit || len(recs) == 0 || minNext <= q.Next {
+				continue
+			}
+			m.passedOver[id]++
+			m.hit("schedule.passed-over-by-newer-occurrences")
+			if m.passedOver[id] > 2*len(prev.S)+2 {
+				m.violate("C10", "row:due-schedule-starved", fmt.Sprintf("schedule %s has been due since %d and was passed over by %d consecutive full firing reads (limit %d) that only returned later occurrences (earliest %d)", id, q.Next, m.passedOver[id], c.cmd.ReadSchedules.Limit, minNext))
+				delete(m.passedOver, id)
+			}
 		}
 	}
 	for id, s0 := range prev.S {
